@@ -22,6 +22,7 @@ type lockCtx struct {
 	u    *Universe
 	v    *cgView
 	safe map[*ssa.Function]bool
+	acq  map[*ssa.Function]bool // functions that return with the datatype mutex held
 }
 
 func firstCall(fn *ssa.Function, names ...string) ssa.Instruction {
@@ -31,22 +32,83 @@ func firstCall(fn *ssa.Function, names ...string) ssa.Instruction {
 	return nil
 }
 
+// mutexCall: a direct Lock/Unlock on the mutex field of a TransactionDatatype.
+func mutexCall(c ssa.CallInstruction, name string) bool {
+	if calleeName(c) != name {
+		return false
+	}
+	recv, _ := recvAndArgs(c)
+	return recv != nil && strings.HasSuffix(canonName(recv), ".mutex")
+}
+
+func (lc *lockCtx) acquiring(c ssa.CallInstruction) bool {
+	if _, isCall := c.(*ssa.Call); !isCall {
+		return false
+	}
+	if mutexCall(c, "Lock") {
+		return true
+	}
+	f := staticCallee(c)
+	return f != nil && lc.acq[f]
+}
+
+// computeAcquirers: a function acquires the datatype mutex when one of its acquiring calls
+// dominates every return, except returns taken under "isLocked" (the re-entrant early exit).
+func (lc *lockCtx) computeAcquirers(fns []*ssa.Function) {
+	lc.acq = map[*ssa.Function]bool{}
+	for changed := true; changed; {
+		changed = false
+		for _, f := range fns {
+			if lc.acq[f] || f.Pkg == nil || f.Pkg.Pkg.Path() != pDatatypes {
+				continue
+			}
+			for _, c := range callsIn(f) {
+				if !lc.acquiring(c) {
+					continue
+				}
+				all := true
+				forEachInstr(f, func(in ssa.Instruction) {
+					ret, ok := in.(*ssa.Return)
+					if !ok || instrDominates(c.(ssa.Instruction), ret) {
+						return
+					}
+					lits, okl := litStrings(f, ret)
+					if !okl || !allPathsContain(lits, ".isLocked") {
+						all = false
+					}
+				})
+				// a release in the same function cancels it
+				for _, c2 := range callsIn(f) {
+					if mutexCall(c2, "Unlock") {
+						all = false
+					}
+				}
+				if all {
+					lc.acq[f] = true
+					changed = true
+					break
+				}
+			}
+		}
+	}
+}
+
 // heldAt: is the datatype mutex held at instruction in (by the shape of the code)?
 func (lc *lockCtx) heldAt(in ssa.Instruction) bool {
 	fn := in.Parent()
-	switch fnName(fn) {
-	case "TransactionDatatype.SentenceInTx", "TransactionDatatype.DoTransaction", "TransactionDatatype.ExecuteRemoteTransactionWithCtx":
-		b := firstCall(fn, "BeginTransaction")
-		return b != nil && b != in && instrDominates(b, in)
-	case "TransactionDatatype.BeginTransaction":
-		b := firstCall(fn, "setTransactionContextAndLock")
-		return b != nil && b != in && instrDominates(b, in)
-	case "TransactionDatatype.setTransactionContextAndLock":
-		b := firstCall(fn, "Lock")
-		return b != nil && b != in && instrDominates(b, in)
-	case "TransactionDatatype.unlock":
-		b := firstCall(fn, "Unlock")
-		return b != nil && b != in && instrDominates(in, b) && lc.safe[fn]
+	for _, c := range callsIn(fn) {
+		if mutexCall(c, "Unlock") {
+			b := c.(ssa.Instruction)
+			return b != in && instrDominates(in, b) && lc.safe[fn]
+		}
+	}
+	for _, c := range callsIn(fn) {
+		if lc.acquiring(c) {
+			b := c.(ssa.Instruction)
+			if b != in && instrDominates(b, in) {
+				return true
+			}
+		}
 	}
 	return lc.safe[fn]
 }
@@ -130,6 +192,7 @@ func newLockCtx(u *Universe, thorough bool) *lockCtx {
 	for _, f := range fns {
 		lc.safe[f] = true
 	}
+	lc.computeAcquirers(fns)
 	for changed := true; changed; {
 		changed = false
 		for _, f := range fns {
@@ -239,8 +302,16 @@ func ruleR20_1(w *World, r *Report) {
 	r.OK("accesses under the lock", "", fmt.Sprintf("%d accesses of guarded fields are inside the lock brackets", held))
 	// explicit ordering facts the brackets rest on
 	if bt := u.Fn(pDatatypes, "TransactionDatatype", "BeginTransaction"); bt != nil {
-		lock := firstCall(bt, "setTransactionContextAndLock")
+		var lock ssa.Instruction
+		for _, c := range callsIn(bt) {
+			if lc.acquiring(c) && lock == nil {
+				lock = c.(ssa.Instruction)
+			}
+		}
 		bad := ""
+		if lock == nil {
+			bad = "no lock acquisition; everything"
+		}
 		for _, c := range callsNamed(bt, "SetNextOpID", "appendOperation", "NewTransactionOperation") {
 			if lock == nil || !instrDominates(lock, c.(ssa.Instruction)) {
 				bad = calleeName(c)
